@@ -6,7 +6,7 @@
 // interpreted by the verifier (govc); their Go bodies are the executable
 // reading used when a counterexample is replayed against the real code.
 
-package timestamppb
+package impl
 
 func requires(c bool) {
 	if !c {
